@@ -93,13 +93,13 @@ def _wire_check(chk, pid, rule):
                         "32-bit fields are covered at boundary values, not exhaustively; text in these vectors is ASCII (code pages: C10-C12)"]
 
 
-def text_frames(chk, pid):
+def text_frames(chk, pid, also=()):
     """Every text-bearing packet with ASCII / Latin-1 / Cyrillic / double-byte / switching / caret-trail texts of every length, in both
     size modes: Trace_Text.TFrame (frame laws; a text that fits comes back unchanged and re-encodes to the same frame)."""
     tp = os.path.join(WORK, f"{pid}_fields.ndjson")
     out = harness(["text-fields", "--out", tp, "--tier", chk.tier])
     chk.extra["text_frames"] = json.loads(out.strip().splitlines()[-1])
-    text_trace_validate(chk, f"{pid}_fields", tp, "frame of a text-bearing packet", only={"Frame", "Panic"})
+    text_trace_validate(chk, f"{pid}_fields", tp, "frame of a text-bearing packet", only={"Frame", "Panic"} | set(also))
 
 
 def check_C01(chk):
@@ -110,7 +110,9 @@ def check_C01(chk):
                 "Text that is not ASCII (Latin-1, Cyrillic, double-byte, a code page switch at every character, double-byte characters whose trail "
                 "byte is a caret followed by code page letters) is carried through every text field of every kind: a text that fits its field "
                 "must come back unchanged and re-encode to the same frame (Frame events, Trace_Text.TFrame).")
-    text_frames(chk, "c01")
+    # IS_MSO has a writer of its own (name and text are one string, the text start is an offset): frames built the way LFS builds
+    # them, with names in several code pages, decode and re-encode to the same frame (MsoDec events)
+    text_frames(chk, "c01", also={"MsoDec"})
 
 
 def check_C02(chk):
